@@ -4,8 +4,12 @@ Implementation side: the grammar / model family of harness/objgen.py rendered wi
 layouts (leading, trailing and interleaved whitespace, `\\r\\n`, line and block comments,
 tokens glued together where lexically possible, non-ASCII identifiers), plus a small "mini"
 family (every maximal run of letters in a string over {a, b, space, \\n, \\r} is an object)
-and a "multi" family (2-4 files that import each other and refer to each other's items, so
-several models, parsers and file names coexist).
+a "multi" family (2-4 files that refer to each other's items, so several models, parsers and
+file names coexist: mode "import" = importURI imports, mode "repo" = global-repository scope
+providers with a file pattern or add_model, file 0 then also given as a string, optionally one
+repository shared by all loads) and a "lang" family (grammars that use the same literal at many
+places — keyword-like words and symbols, directly or through one-literal match rules —, interior
+matches with the suppress operator '-', meta-models with autokwd / ignore_case / memoization).
 
 Every text is turned into a model in one of the ways the quantifier names ("loaded from
 strings and from files"): `model_from_str(text)`, `model_from_str(text, file_name=...)`,
@@ -471,7 +475,11 @@ class Prop(Check):
     PROCS_THOROUGH = 4
     RULE = ("random grammar + derived model rendered with a random layout (whitespace incl. \\r\\n and bare \\r, line / "
             "block comments, glued tokens, non-ASCII names); 'mini' texts over {a,b,space,\\n,\\r}; 'multi': 2-4 files "
-            "importing each other (importURI, also cyclic) with cross-file references; each with a random load "
+            "importing each other (importURI, also cyclic) with cross-file references, or (mode repo) found through "
+            "FQNGlobalRepo / PlainNameGlobalRepo with a file pattern or add_model (string models too), file 0 from a "
+            "string or a file, optionally global_repository=True and further string models before / after; 'lang': "
+            "grammars repeating the same literals (words, symbols, one-literal match rules) at many places, interior "
+            "matches suppressed with '-', autokwd / ignore_case / memoization; each with a random load "
             "configuration: model from string / string with file_name / absolute / relative file, grammar from string / "
             "string with file_name / file, other models loaded with the same meta-model before and after, get_location "
             "also asked from object processors during the load; "
@@ -484,16 +492,20 @@ class Prop(Check):
                 "tie X: pos_to_linecol on sampled positions, get_location and spans of every object of every loaded "
                 "model, process_node on the real parse tree, WF predicate on the real parse tree; the Arpeggio "
                 "interpreter itself is not modelled here (well-formedness of its trees is checked on every case, not "
-                "proved); Python attribute lookup (instance vs class `_tx_filename`) is not modelled: the model reads "
+                "proved); how textx/lang.py builds parser expressions from the grammar (shared / per-occurrence match "
+                "objects, suppress flags) and the model repository of textx/scoping are not modelled (correspondence "
+                "and direct oracle only); Python attribute lookup (instance vs class `_tx_filename`) is not modelled: the model reads "
                 "the file name of the model root, the grammar's file name does not exist in it")
     ASSUMPTIONS = [
-        "'matched' = retained in the parse tree: suppressed matches ('-') and empty string literals are outside the fragment",
+        "'matched' = retained in the parse tree: empty string literals are outside the fragment; suppressed matches "
+        "('-') are generated at interior places only (no object starts or ends with one)",
         "lines are separated by \\n (a bare \\r does not start a new line); for files the input is the text as read "
         "by Python (universal newlines)",
         "Arpeggio parse trees have ordered, non-overlapping, non-empty terminals and no empty NonTerminal "
         "(PT.wfB; checked on every generated case)",
         "the model's file name is None for model_from_str(text), the absolute path for model_from_file(path) (also "
-        "when a relative path was given) and for model_from_str(text, file_name=path)",
+        "when a relative path was given) and for model_from_str(text, file_name=path); a name a model repository "
+        "invents for a string model is not a file name",
     ]
 
     # ------------------------------------------------------------------ generation
@@ -1269,6 +1281,13 @@ class Prop(Check):
                                  "linecol_positions": sum(len(s["positions"]) for s in subs),
                                  "mini_cases": sum(1 for c in cases if c["kind"] == "mini"),
                                  "multi_cases": sum(1 for c in cases if c["kind"] == "multi"),
+                                 "multi_repo_cases": sum(1 for c in cases if c.get("mode") == "repo"),
+                                 "multi_repo_main_from_string": sum(1 for c in cases if c.get("mode") == "repo" and src_of(c) == "str"),
+                                 "lang_cases": sum(1 for c in cases if c["kind"] == "lang"),
+                                 "lang_autokwd": sum(1 for c in cases if c["kind"] == "lang" and c["g"]["opts"].get("autokwd")),
+                                 "lang_ignore_case": sum(1 for c in cases if c["kind"] == "lang" and c["g"]["opts"].get("ignore_case")),
+                                 "lang_suppressed_literals": sum(1 for c in cases if c["kind"] == "lang" for r in c["g"]["rules"]
+                                                                 for e in r if e.get("sup")),
                                  "models_in_multi_cases": sum(len(o["models"]) for c, o in ok if c["kind"] == "multi"),
                                  "cases_from_file": sum(1 for c in cases if translated(c)),
                                  "cases_with_history": sum(1 for c in cases if c.get("hist")),
